@@ -1113,23 +1113,30 @@ LOOP:
 				continue LOOP
 			}
 			if len(l.src) > 1 && l.src[1] == '*' {
-				l.src = l.src[2:]
-				p := bytes.Index(l.src, []byte("*/"))
+				p := bytes.Index(l.src[2:], []byte("*/"))
 				if p == -1 {
 					return l.errorf("comment not terminated")
 				}
-				nl := bytes.IndexAny(l.src[:p], "\n"+string(BOM))
-				if nl >= 0 && l.src[nl] != '\n' {
-					return l.errorf(bomErrorMsg)
+				comment := l.src[:p+4]
+				nl := bytes.IndexAny(comment, "\n"+string(BOM))
+				if nl >= 0 && comment[nl] == '\n' && endLineAsSemicolon {
+					l.emit(tokenSemicolon, 0)
+					endLineAsSemicolon = false
 				}
-				l.src = l.src[p+2:]
-				if nl >= 0 {
-					if endLineAsSemicolon {
-						l.emit(tokenSemicolon, 0)
-						endLineAsSemicolon = false
+				// Skip the comment keeping the line and the column up to date.
+				for i, c := range comment {
+					if nl >= 0 && i == nl && c != '\n' {
+						l.src = l.src[i:]
+						return l.errorf(bomErrorMsg)
 					}
-					l.newline()
+					if c == '\n' {
+						l.newline()
+						nl = -1
+					} else if isStartChar(c) {
+						l.column++
+					}
 				}
+				l.src = l.src[len(comment):]
 				continue LOOP
 			}
 			if len(l.src) > 1 && l.src[1] == '=' {
